@@ -41,7 +41,7 @@ impl Ctx {
                 return false;
             }
             let (code, out) =
-                crate::supervisor::run_child(&["replay-inner", &tmp], Duration::from_secs(4));
+                crate::supervisor::run_child(&["replay-inner", &tmp], Duration::from_secs(3));
             let class = match code {
                 None => "killed:timeout".to_string(),
                 Some(0) => out
@@ -52,7 +52,9 @@ impl Ctx {
                 Some(2) => String::new(),
                 Some(_) => "killed:abort".to_string(),
             };
-            class == self.class
+            // Any way of not finishing counts as the same class: what is an abort after memory
+            // runs out at full size is a timeout for a candidate that is stopped earlier.
+            class == self.class || (class.starts_with("killed") && self.class.starts_with("killed"))
         } else {
             let (verdict, _) = crate::worker::run_case(&mut self.scratch, case, 0);
             match verdict {
